@@ -7,6 +7,7 @@ import (
 	"fmt"
 	"os"
 	"path/filepath"
+	"regexp"
 	"sort"
 	"strings"
 	"time"
@@ -189,8 +190,10 @@ func cmdRun(args []string) int {
 		if *prop != "" && !obHasProp(parts[1], *prop) {
 			continue
 		}
-		if *only != "" && !strings.Contains(name, *only) {
-			continue
+		if *only != "" {
+			if ok, _ := regexp.MatchString(*only, name); !ok {
+				continue
+			}
 		}
 		if *tier == "quick" && strings.HasSuffix(name, "_T") {
 			continue // thorough-only obligations end in _T
@@ -216,7 +219,7 @@ func cmdRun(args []string) int {
 	}
 	res := &outT{Property: *prop, Tier: *tier, LoadS: eng.loadSecs, Funcs: map[string]int{}, Solver: gStats}
 	res.Bounds = map[string]interface{}{"unwind": cfg.Unwind, "enum_bound_N": cfg.EnumBound, "slice_bound": cfg.SliceBound,
-		"map_perm": cfg.MaxMapPerm, "path_limit": cfg.PathLimit, "query_ms": cfg.QueryMs, "ints": "64-bit wrapping, exact", "big": "unbounded (|x| <= 2^200 assumed for stored amounts)"}
+		"map_perm": cfg.MaxMapPerm, "path_limit": cfg.PathLimit, "query_ms": cfg.QueryMs, "ints": "64-bit wrapping, exact", "big": "unbounded (|x| <= 2^100 assumed for stored amounts)"}
 	caseN := 0
 	for _, ob := range obs {
 		r := eng.explore(ob)
